@@ -40,4 +40,11 @@ var rejectTemplates = []string{
 	"with a:\n    pass\nelse:\n    pass\n", "with a:\n    pass\nfinally:\n    pass\n", "def f():\n    pass\nelse:\n    pass\n", "class A:\n    pass\nelse:\n    pass\n", "try:\n    pass\nexcept A, B:\n    pass\n", "try:\n    pass\nexcept A as b, C:\n    pass\n",
 	"try:\n    pass\nexcept A:\n    pass\nelse:\n    pass\nfinally:\n    pass\n" /* legal */, "try:\n    pass\nfinally:\n    pass\n" /* legal */, "def f():\n    try:\n        pass\n    else:\n        pass\n    finally:\n        pass\n",
 	"for x in y:\n    try:\n        pass\n    else:\n        continue\n    finally:\n        pass\n", "try: pass\nelse: pass\nfinally: pass\n",
+	// break and continue inside a try, with, else or finally block that is itself inside no loop (in a function and at module level)
+	"def f():\n    try:\n        break\n    finally:\n        pass\n", "def f():\n    try:\n        pass\n    finally:\n        break\n", "def f():\n    try:\n        pass\n    except A:\n        break\n",
+	"def f():\n    try:\n        pass\n    except A:\n        pass\n    else:\n        break\n", "def f():\n    with a:\n        break\n", "def f():\n    with a as b:\n        if c:\n            break\n",
+	"try:\n    break\nfinally:\n    pass\n", "try:\n    pass\nfinally:\n    break\n", "try:\n    pass\nexcept A:\n    pass\nelse:\n    break\n", "with a:\n    if b:\n        break\n",
+	"def f():\n    try:\n        try:\n            break\n        finally:\n            pass\n    except A:\n        pass\n", "class C:\n    try:\n        break\n    finally:\n        pass\n",
+	"def f():\n    try:\n        continue\n    finally:\n        pass\n", "def f():\n    with a:\n        continue\n", "for x in y:\n    def f():\n        try:\n            break\n        finally:\n            pass\n",
+	"for x in y:\n    try:\n        break\n    finally:\n        pass\n" /* legal */, "while a:\n    with b:\n        break\n", /* legal */
 }
